@@ -25,6 +25,8 @@ impl<R> RecoveryHandle<R> {
                 Ok(recorder) => break recorder,
                 Err(handle) => {
                     self.handle = handle;
+                    #[cfg(metrics_verif)]
+                    metrics::__verif::spin("recoverable.into_inner.retry");
                 }
             }
         }
@@ -70,6 +72,13 @@ impl<R: Recorder + Sync + Send + 'static> RecoverableRecorder<R> {
         (wrapped, RecoveryHandle { handle: self.handle })
     }
 
+    /// Verification only: builds the wrapped recorder without installing it globally.
+    #[cfg(metrics_verif)]
+    #[doc(hidden)]
+    pub fn __verif_build(self) -> (impl Recorder + Send + Sync + 'static, RecoveryHandle<R>) {
+        self.build()
+    }
+
     /// Installs the wrapped recorder globally, returning a handle to recover it.
     ///
     /// A weakly-referenced version of the recorder is installed globally, while the original
@@ -104,24 +113,32 @@ impl<R> WeakRecorder<R> {
 impl<R: Recorder> Recorder for WeakRecorder<R> {
     fn describe_counter(&self, key: KeyName, unit: Option<Unit>, description: SharedString) {
         if let Some(recorder) = self.recorder.upgrade() {
+            #[cfg(metrics_verif)]
+            metrics::__verif::point("recoverable.weak.upgraded");
             recorder.describe_counter(key, unit, description);
         }
     }
 
     fn describe_gauge(&self, key: KeyName, unit: Option<Unit>, description: SharedString) {
         if let Some(recorder) = self.recorder.upgrade() {
+            #[cfg(metrics_verif)]
+            metrics::__verif::point("recoverable.weak.upgraded");
             recorder.describe_gauge(key, unit, description);
         }
     }
 
     fn describe_histogram(&self, key: KeyName, unit: Option<Unit>, description: SharedString) {
         if let Some(recorder) = self.recorder.upgrade() {
+            #[cfg(metrics_verif)]
+            metrics::__verif::point("recoverable.weak.upgraded");
             recorder.describe_histogram(key, unit, description);
         }
     }
 
     fn register_counter(&self, key: &Key, metadata: &Metadata<'_>) -> Counter {
         if let Some(recorder) = self.recorder.upgrade() {
+            #[cfg(metrics_verif)]
+            metrics::__verif::point("recoverable.weak.upgraded");
             recorder.register_counter(key, metadata)
         } else {
             Counter::noop()
@@ -130,6 +147,8 @@ impl<R: Recorder> Recorder for WeakRecorder<R> {
 
     fn register_gauge(&self, key: &Key, metadata: &Metadata<'_>) -> Gauge {
         if let Some(recorder) = self.recorder.upgrade() {
+            #[cfg(metrics_verif)]
+            metrics::__verif::point("recoverable.weak.upgraded");
             recorder.register_gauge(key, metadata)
         } else {
             Gauge::noop()
@@ -138,6 +157,8 @@ impl<R: Recorder> Recorder for WeakRecorder<R> {
 
     fn register_histogram(&self, key: &Key, metadata: &Metadata<'_>) -> Histogram {
         if let Some(recorder) = self.recorder.upgrade() {
+            #[cfg(metrics_verif)]
+            metrics::__verif::point("recoverable.weak.upgraded");
             recorder.register_histogram(key, metadata)
         } else {
             Histogram::noop()
